@@ -35,7 +35,7 @@ SUMMARY = {
  "C24": "`Do`: handler present under `req.MsgID` when `retryUntilAck` is called, absent on return; `Do$1` (the handler): `Decode`/`retryClose` only after winning the CAS; routing as in C23.",
  "C25": "`retryUntilAck`: ghost `sends` counts `e.send` calls, each with (MsgID, SeqNo, Input) of the request, loop invariant `sends == retries+1 ∧ retries < max(maxRetries,1)`, timer armed/re-armed with retryInterval; `NotifyAcks` removes exactly the acked ids (all of them) and registers nothing; `Do` never calls `send` itself.",
  "C26": "`Do`/`retryUntilAck`/`ForceClose`/`errRetryableOnNewConn` (both copies)/`invokeConn`: see decision table; error chains via the uninterpreted relation `eis` with `Wrap` extension, sentinel distinctness and `Context.Err ∈ {nil, Canceled, DeadlineExceeded}`.",
- "C27": "`DC.acquire`: monitor invariant `max < 1 ∨ total ≤ max` on c.mu.",
+ "C27": "`DC.acquire`: monitor invariant `max < 1 ∨ total ≤ max` on c.mu. `DC.dead`: `total' = total − won`, where the ghost `won` is set only by a call-site rule on `Bool.Swap(true)` / `CompareAndSwap(false, true)` applied to `r.deleted` (one atomic read-modify-write; a `Load` followed by a `Store` sets nothing), so each death is counted once; monitor invariants `total ≥ 0` and 'no nil pointer in `free`' re-established at unlock; `poolConn.deleted` non-nil by the syntactic `nonnil` check.",
  "C28": "`DC.acquire`, `DC.Invoke`: ghost ownership of the created connection: on every return it is lent, free, in transfer or dead.",
  "C30": "`dcSessionFromMTProto`, `saveSession`, `onSession`, `onCDNSession`, `restoreConnection`: see decision table.",
  "C31": "`StoreSession` = `writeFileAtomic`: ghost state machine over the os calls (create temp in same dir, write all, sync, close, rename; temp removed on error).",
